@@ -1,10 +1,10 @@
 package props
 
 import (
-	"strings"
 	"go/ast"
 	"go/types"
 	"regexp"
+	"strings"
 
 	"verifcheck/an"
 )
@@ -137,14 +137,14 @@ func c02(c *an.Ctx) {
 		r := c.Rule("C02.R3", "K-ARGROLE", "merge precedence: every call site of the record-merge primitives passes (newer, older) in that order")
 		type role struct{ newRe, oldRe, reason string }
 		table := map[string]role{
-			MU + ":(*MemTables).Values → MergeRecord":                              {`\(recv\.activeTbl\)$`, `\(recv\.snapshotTbl\)$`, "active memtable is newer than the snapshot being flushed"},
-			MU + ":(*MemTables).Values → MergeRecordDescend":                       {`\(recv\.activeTbl\)$`, `\(recv\.snapshotTbl\)$`, "same, descending"},
-			E + ":(*seriesCursor).nextInner → mergeData":                           {`^&recv\.memRecIter$`, `^&recv\.tsmRecIter$`, "memtable over files"},
-			E + ":(*tsmMergeCursor).Next → mergeData":                              {`^&recv\.outOrderRecIter$`, `^&recv\.orderRecIter$`, "out-of-order files over ordered files"},
-			E + ":(*fileCursor).readData → mergeData":                              {`^recv\.memIter$`, `^recv\.seriesIter\.iter$`, "memtable over files"},
-			E + ":(*tsmMergeCursor).FirstTimeInit → MergeRecord":                   {`^recv\.readData\(false,.*\)#0$`, `^local\(\w+\)$`, "locations are read in ascending file sequence: the record just read is newer than the accumulated one"},
-			E + ":(*tsmMergeCursor).FirstTimeInit → MergeRecordDescend":            {`^recv\.readData\(false,.*\)#0$`, `^local\(\w+\)$`, "same, descending"},
-			E + ":mergeData → MergeRecordByMaxTimeOfOldRec":                        {`^p0\.record$`, `^p1\.record$`, "roles are forwarded unchanged"},
+			MU + ":(*MemTables).Values → MergeRecord":                                          {`(?:^|\()recv\.activeTbl[,).]`, `(?:^|\()recv\.snapshotTbl[,).]`, "active memtable is newer than the snapshot being flushed"},
+			MU + ":(*MemTables).Values → MergeRecordDescend":                                   {`(?:^|\()recv\.activeTbl[,).]`, `(?:^|\()recv\.snapshotTbl[,).]`, "same, descending"},
+			E + ":(*seriesCursor).nextInner → mergeData":                                       {`^&recv\.memRecIter$`, `^&recv\.tsmRecIter$`, "memtable over files"},
+			E + ":(*tsmMergeCursor).Next → mergeData":                                          {`^&recv\.outOrderRecIter$`, `^&recv\.orderRecIter$`, "out-of-order files over ordered files"},
+			E + ":(*fileCursor).readData → mergeData":                                          {`^recv\.memIter$`, `^recv\.seriesIter\.iter$`, "memtable over files"},
+			E + ":(*tsmMergeCursor).FirstTimeInit → MergeRecord":                               {`^recv\.readData\(false,.*\)#0$`, `^local\(\w+\)$`, "locations are read in ascending file sequence: the record just read is newer than the accumulated one"},
+			E + ":(*tsmMergeCursor).FirstTimeInit → MergeRecordDescend":                        {`^recv\.readData\(false,.*\)#0$`, `^local\(\w+\)$`, "same, descending"},
+			E + ":mergeData → MergeRecordByMaxTimeOfOldRec":                                    {`^p0\.record$`, `^p1\.record$`, "roles are forwarded unchanged"},
 			E + ":(*fileLoopCursor).initOutOfOrderItersByRecord → MergeRecordLimitRows":        {`^recv\.mergeRecIters\[p2\]\[p3\]\.iter\.record$`, `^p0\.record$`, "rows buffered from later (newer) out-of-order iterators over the incoming block"},
 			E + ":(*fileLoopCursor).initOutOfOrderItersByRecord → MergeRecordLimitRowsDescend": {`^recv\.mergeRecIters\[p2\]\[p3\]\.iter\.record$`, `^p0\.record$`, "same, descending"},
 			R + ":(*Record).MergeRecord → MergeRecordLimitRows":                                {`^p0$`, `^p1$`, "roles are forwarded unchanged"},
@@ -159,6 +159,37 @@ func c02(c *an.Ctx) {
 			R + ":Record.MergeRecordByMaxTimeOfOldRec", E + ":mergeData"}
 		seenKeys := map[string]bool{}
 		n := 0
+		// checkSite decides one call of a merge primitive (or of a helper that forwards its own
+		// parameters i, j to one): key names the outermost caller and the primitive.
+		var checkSite func(cs an.CallSite, prim string, i, j int, depth int)
+		checkSite = func(cs an.CallSite, prim string, i, j int, depth int) {
+			key := cs.Caller.Name() + " → " + prim
+			seenKeys[key] = true
+			if len(cs.Call.Args) <= i || len(cs.Call.Args) <= j {
+				return
+			}
+			f := c.P.Fn(cs.Caller)
+			a0, a1 := f.Canon(cs.Call.Args[i]), f.Canon(cs.Call.Args[j])
+			rl, ok := table[key]
+			if !ok {
+				// an unexported helper that hands its own parameters on: the roles are decided at its call sites
+				pi, pj := paramIndex(a0), paramIndex(a1)
+				callers := c.P.CallsTo(cs.Caller.Obj)
+				if pi >= 0 && pj >= 0 && depth < 2 && !cs.Caller.Obj.Exported() && len(callers) > 0 {
+					for _, up := range callers {
+						if up.Caller != nil {
+							checkSite(up, prim, pi, pj, depth+1)
+						}
+					}
+					return
+				}
+				r.Fail(key+": unclassified", c.P.Pos(cs.Call.Pos()), "new call site of a merge primitive whose (newer, older) roles are not in the frozen role table")
+				return
+			}
+			if !regexp.MustCompile(rl.newRe).MatchString(a0) || !regexp.MustCompile(rl.oldRe).MatchString(a1) {
+				r.Fail(key+": roles", c.P.Pos(cs.Call.Pos()), "arguments (%s, %s) do not have the roles (newer=/%s/, older=/%s/): %s", a0, a1, rl.newRe, rl.oldRe, rl.reason)
+			}
+		}
 		for _, t := range targets {
 			o := obj(r, t)
 			if o == nil {
@@ -169,21 +200,7 @@ func c02(c *an.Ctx) {
 					continue
 				}
 				n++
-				key := cs.Caller.Name() + " → " + o.Name()
-				seenKeys[key] = true
-				rl, ok := table[key]
-				if !ok {
-					r.Fail(key+": unclassified", c.P.Pos(cs.Call.Pos()), "new call site of a merge primitive whose (newer, older) roles are not in the frozen role table")
-					continue
-				}
-				if len(cs.Call.Args) < 2 {
-					continue
-				}
-				f := c.P.Fn(cs.Caller)
-				a0, a1 := f.Canon(cs.Call.Args[0]), f.Canon(cs.Call.Args[1])
-				if !regexp.MustCompile(rl.newRe).MatchString(a0) || !regexp.MustCompile(rl.oldRe).MatchString(a1) {
-					r.Fail(key+": roles", c.P.Pos(cs.Call.Pos()), "arguments (%s, %s) do not have the roles (newer=/%s/, older=/%s/): %s", a0, a1, rl.newRe, rl.oldRe, rl.reason)
-				}
+				checkSite(cs, o.Name(), 0, 1, 0)
 			}
 		}
 		r.AddSites(n)
@@ -301,4 +318,19 @@ func splitTimeVar(f *an.Fn, s an.Site) types.Object {
 		return nil
 	}
 	return v
+}
+
+// paramIndex parses the canonical name "p<i>" of a parameter; -1 otherwise.
+func paramIndex(canon string) int {
+	if len(canon) < 2 || canon[0] != 'p' {
+		return -1
+	}
+	n := 0
+	for _, ch := range canon[1:] {
+		if ch < '0' || ch > '9' {
+			return -1
+		}
+		n = n*10 + int(ch-'0')
+	}
+	return n
 }
